@@ -70,8 +70,10 @@ impl Metadata {
 #[verifier::external_body] pub struct OsFile { x: u8 }
 pub uninterp spec fn os_written(p: Comps, data: Seq<u8>) -> bool;
 pub uninterp spec fn os_file_text(p: Comps) -> Seq<char>;
+pub use io::SeekFrom;
 impl OsFile {
     pub uninterp spec fn of(&self) -> Comps;
+    #[verifier::external_body] pub fn seek(&mut self, p: SeekFrom) -> (r: RvResult<u64>) ensures final(self).of() == old(self).of() { unimplemented!() }
     // ASSUMED[os]: File::create truncates; write_all writes all of the buffer; sync_all flushes to disk
     #[verifier::external_body] pub fn write_all(&mut self, data: &[u8]) -> (r: RvResult<()>) ensures final(self).of() == old(self).of(), r is Ok ==> os_written(old(self).of(), data@) { unimplemented!() }
     #[verifier::external_body] pub fn sync_all(&mut self) -> (r: RvResult<()>) ensures final(self).of() == old(self).of() { unimplemented!() }
@@ -283,10 +285,17 @@ impl PathBuf {
 pub open spec fn mkdir_m_done(a: PathV, mode: u32, j: int) -> bool {
     forall|i: int| 0 <= i <= j ==> os_stat_ok(abs_comps(#[trigger] a.take(i)), false) || (os_dir_created(abs_comps(a.take(i))) && os_mode_set(abs_comps(a.take(i)), mode))
 }
+#[verifier::external_body]
+pub fn os_set_mode_of_created<T: PathArg>(p: T, mode: u32) -> (r: RvResult<()>)
+    requires os_dir_created(p.pc())
+    ensures r is Ok ==> os_mode_set(p.pc(), mode)
+{ unimplemented!() }
 impl Stdfs {
 //@ item mkdir_m file=src/sys/fs/stdfs/mod.rs block="impl Stdfs" fn=mkdir_m props=C01,C11,C05,C12
 //@ rw R3 1 for
 //@ rw R8 * ⟦fs::create_dir(&path)?;⟧ => ⟦os_create_dir(&path)?;⟧
+// "entries that already existed are kept": mkdir_m may set the mode only of a directory it has just created
+//@ rw R8 + re⟦\bfs::set_permissions\(([^,]+), fs::Permissions::from_mode\(([^()]+)\)\)⟧ => ⟦os_set_mode_of_created(\1, \2)⟧
 //@ ins after ⟦let mut path = PathBuf::new();⟧
         let ghost a = abs@;
         let ghost mut k: int = 0;
